@@ -52,6 +52,7 @@ def examine(desc, src, sets, res):
     pr = scopes.crosscheck(scopes.analyse(tin0), src)
     if pr:
         raise core.HarnessError('scopes vs symtable disagree on %r: %s' % (src, pr[:3]))
+    observe.DECOY = 'obs(B)' in src
     ref = observe.run(code)
     bases = {}
     seen = set()
@@ -119,6 +120,7 @@ def replay(case):
     if code is None:
         return None
     base = frozenset(case['base'])
+    observe.DECOY = 'obs(B)' in src
     ref = observe.run(code)
     v, _, _ = violation_for(src, pm.minify(src, base), base, frozenset(case['rename']), ref)
     for kind, detail in v:
